@@ -171,7 +171,7 @@ Section Exec.
         | RFuel | RExec _ => (r, s2)
         | _ =>
             let s3 := pop_frame s2 in
-            let exited := match r with ROk FExit _ => true | _ => false end in
+            let exited := match r with ROk FExit code => Some code | _ => None end in
             let s4 := emit (EvEnd g exited) s3 in
             match r with
             | ROk FExit code => if fixed cf then (r, set_status code s4) else (r, set_status orig s4)
@@ -373,10 +373,11 @@ Definition on_exit_and_status (cf : cfg) (fuel : nat) (s : st) : final :=
       end
   end.
 
-(** the commands-on-stdin loop: one [run_string] per complete command; only ExitShell leaves *)
+(** the commands-on-stdin loop: one [run_string] per complete command; only ExitShell leaves
+    (at end of input the loop's own result is immaterial: the last status stands for it) *)
 Fixpoint stdin_loop (cf : cfg) (fuel : nat) (cs : list cmd) (s : st) : res * st :=
   match cs with
-  | [] => (ROk FNormal 0, s)
+  | [] => (ROk FNormal (status s), s)
   | c :: cs' =>
       let '(r, s1) := run_program (exec cf fuel) false [c] (FNormal, 0) s in
       match r with
